@@ -180,6 +180,9 @@ func kindCases() []string {
 	var out []string
 	for a := 0; a <= 4; a++ {
 		for b := 0; b <= 4; b++ {
+			if (a == 3 || b == 3) && a != 2 && b != 2 {
+				continue // a waiting function with nobody to end the call: excluded by the harness
+			}
 			out = append(out, fmt.Sprintf("k0=%d,k1=%d", a, b))
 		}
 	}
@@ -217,7 +220,7 @@ func init() {
 		Thorough: []Job{
 			{H: "H_C17_Three", K: 40, U: 4, TimeoutSec: 3000, QueryMs: 2400000},
 		},
-		Bounds:  "0, 1, 2 (thorough: 3) entries, each of kind {nil entry, returns nil, returns its own error, waits for its context then returns Canceled, returns Canceled at once} (the 25 combinations of two entries are case split, fully symbolic for 0/1 and in the thorough 3-entry harness); optional cancellation of the caller's context at any point; K<=30 (40) global steps, U=3 (4)",
+		Bounds:  "0, 1, 2 (thorough: 3) entries, each of kind {nil entry, returns nil, returns its own error, waits for its context then returns Canceled, returns Canceled at once} (the 18 terminating combinations of two entries are case split, fully symbolic for 0/1 and in the thorough 3-entry harness); optional cancellation of the caller's context at any point; K<=30 (40) global steps, U=3 (4)",
 		Outside: "more than 3 functions; functions that panic",
 	}
 
@@ -273,7 +276,6 @@ func init() {
 			{H: "H_C04_NilRoutine", K: 36, U: 3, Prune: true, Preempt: 2, Only: "routine-overlap|wait-return|setstate-channel|panic/", TimeoutSec: 900},
 			{H: "H_C04_StateEmpty", K: 36, U: 3, Prune: true, Preempt: 2, Only: "routine-overlap|wait-return|setstate-channel|panic/", TimeoutSec: 900},
 			// bug hunting only in the quick tier (short solver budget; the full proof is in thorough)
-			{H: "H_C04_SetRoutine2", K: 40, U: 3, Prune: true, Preempt: 2, Only: "routine-overlap|wait-return|setstate-channel|panic/", TimeoutSec: 420, QueryMs: 150000},
 			{H: "H_C04_State2", K: 44, U: 3, Prune: true, Preempt: 2, Only: "routine-overlap|wait-return|setstate-channel|panic/", TimeoutSec: 420, QueryMs: 150000},
 		},
 		Thorough: []Job{
@@ -292,7 +294,6 @@ func init() {
 			{H: "H_C05_RetryReplaced", K: 48, U: 3, Prune: true, Preempt: 2, TimeoutSec: 900},
 			// bug hunting only in the quick tier (short solver budget; the full proof is in thorough)
 			{H: "H_C05_StateVsRestart", K: 48, U: 4, Prune: true, Preempt: 2, TimeoutSec: 420, QueryMs: 150000},
-			{H: "H_C05_Survivor", K: 48, U: 4, Prune: true, Preempt: 2, TimeoutSec: 420, QueryMs: 150000},
 		},
 		Thorough: []Job{
 			{H: "H_C05_StateVsRestart", K: 48, U: 4, Prune: true, Preempt: 2, TimeoutSec: 6000, QueryMs: 5000000},
